@@ -5,18 +5,30 @@
    cross-checks extraction on every run.  No proofs. *)
 From Coq Require Import List NArith Bool.
 Import ListNotations.
-From Verif Require Import Ast TypeCheck SatSpec LiftModel.
+From Verif Require Import Ast TypeCheck SatSpec LiftModel LiftLimits.
 
-Inductive ltarget := TMs (rl : bool) (m : ms) | TDesc (d : ldesc).
+(* a miniscript in its context with the within_resource_limits verdict READ FROM THE IMPLEMENTATION,
+   or a descriptor (which carries one such verdict per miniscript) *)
+Inductive ltarget := TMs (c : ctx) (rl : bool) (m : ms) | TDesc (d : ldesc).
 Definition lcase := (ltarget * lres)%type.                (* what was lifted, what the implementation returned *)
 (* case index, key mask, preimage mask, held nLockTime, held nSequence, "satisfier found a satisfaction" *)
 Definition lworld := (nat * N * N * option N * option N * bool)%type.
 (* preimage index, its four images (sha256, hash256, ripemd160, hash160) *)
 Definition lpre := (N * (bytes * bytes * bytes * bytes))%type.
 
+(* keys 6 and 7 of the harness World are uncompressed *)
+Definition unc_key (k : key) : bool := N.eqb k 6 || N.eqb k 7.
+
+(* the model computes the verdict from the fragment ... *)
 Definition target_lift (t : ltarget) : lres :=
-  match t with TMs rl m => lift_iter rl m | TDesc d => lift_desc d end.
-Definition case_ok (c : lcase) : bool := lres_eqb (target_lift (fst c)) (snd c).
+  match t with TMs c _ m => lift_ctx c unc_key m | TDesc d => lift_desc_ctx unc_key d end.
+(* ... and it must be the implementation's *)
+Definition target_bits_ok (t : ltarget) : bool :=
+  match t with
+  | TMs c rl m => Bool.eqb (within_resource_limits c unc_key m) rl
+  | TDesc d => list_eqb Bool.eqb (desc_bits (redesc unc_key d)) (desc_bits d)
+  end.
+Definition case_ok (c : lcase) : bool := target_bits_ok (fst c) && lres_eqb (target_lift (fst c)) (snd c).
 
 Definition find_pre (tbl : list lpre) (sel : bytes * bytes * bytes * bytes -> bytes) (pm : N) (h : bytes) : option bytes :=
   match find (fun e => list_eqb N.eqb (sel (snd e)) h && N.testbit pm (fst e)) tbl with
@@ -35,7 +47,7 @@ Definition mk_assets (tbl : list lpre) (km pm : N) (l s : option N) : assets :=
 Definition ke0 : keyenv := mkKeyEnv (fun _ => []) (fun _ => []) (fun ks => ks).
 Definition target_spendable (A : assets) (t : ltarget) : bool :=
   match t with
-  | TMs _ m => nonempty (all_sat ke0 A m)
+  | TMs _ _ m => nonempty (all_sat ke0 A m)
   | TDesc d => desc_spendable ke0 A (fun _ => A) d
   end.
 Definition world_ok (tbl : list lpre) (cases : list lcase) (w : lworld) : bool :=
